@@ -1,6 +1,7 @@
 /- Line-protocol front end for the DC-prediction model (`dc` lines). -/
 import VC2.Model.Picture
 import VC2.Model.EncoderSeq
+import VC2.Model.PictureGen
 namespace VC2.Model.Picture
 
 /-- `dc E|D w h v…` -/
@@ -21,6 +22,18 @@ def handleFr (ws : List String) : String :=
   match ws.mapM (·.toNat?) with
   | some [sx, sy, fc] =>
     " ".intercalate ((VC2.Model.EncoderSeq.fragmentLayout sx sy fc).map (fun t => s!"{t.1},{t.2.1},{t.2.2}"))
+  | _ => "bad-op"
+
+/-- `pg fields interlaced tff | h h h …` (sample heights) -/
+def handlePg (ws : List String) : String :=
+  match ws with
+  | f :: i :: t :: "|" :: hs =>
+    match hs.mapM (·.toNat?) with
+    | some hs =>
+      match VC2.Model.PictureGen.toPictures (f == "1") (i == "1") (t == "1") hs with
+      | some r => if r.isEmpty then "-" else " ".intercalate ((VC2.Model.PictureGen.number r).map (fun p => s!"{p.1}:{p.2}"))
+      | none => "ERROR"
+    | none => "bad-op"
   | _ => "bad-op"
 
 end VC2.Model.Picture
